@@ -223,6 +223,7 @@ func addApply(ctx *core.Ctx, kind string, nodes []c05Node, raw map[string]string
 func runC05(ctx *core.Ctx) {
 	if os.Getenv("VERIF_C05_ONLY") == "load" { // development switch: the round-6 streams alone
 		genLoad(ctx)
+		genWhole(ctx)
 		ctx.Wait()
 		return
 	}
@@ -303,6 +304,9 @@ func runC05(ctx *core.Ctx) {
 
 	// ------------------------------------------------------------ 2c. the nested load inside the model: raw base files, virtual file system (c05load.go)
 	genLoad(ctx)
+
+	// ------------------------------------------------------------ 2d. the composed pipeline with extends (Props/C05Whole.lean): pipeline.load
+	genWhole(ctx)
 
 	// ------------------------------------------------------------ 3. malformed stream
 	genMalformed(ctx)
